@@ -102,6 +102,7 @@ DEPTH = {"quick": 4, "thorough": 5}
 JUDGE_GPX_NONGEO_ELEVATION = True      # the statement says "whatever the ... coordinate system chosen"
 
 OBLIGATIONS = {
+    "second_file_of_a_multi_file_gpx_export": "the second file written by writeToGpx(collection, directory, oneFile=False) was read back",
     "non_identity_layout_read_back": "a file with a non-identity column order was read back and judged",
     "layout_without_U": "a layout without the U column was read back",
     "layout_without_T": "a layout without the time column was read back",
@@ -737,6 +738,7 @@ def hist_events(variant, tier="quick"):
         ev.append(("rcsv", k, "conv"))
     ev.append(("rgpx", 0))
     ev.append(("rgpx", 1))
+    ev.append(("rgpx", 2))            # ... and its second file
     for n in range(len(H_NET)):
         ev.append(("rnet", n))
     ev.append(("wkt", 0))
@@ -748,6 +750,8 @@ def _fname(ev):
     if k in ("wcsv", "rcsv"):
         return "c%d.csv" % ev[1]
     if k in ("wgpx", "rgpx"):
+        if k == "rgpx" and ev[1] == 2:
+            return "gd/gb.gpx"                  # the SECOND file of the one-file-per-track export ("wgpx", 1)
         return "g.gpx" if ev[1] == 0 else "gd/ga.gpx"
     if k in ("wnet", "rnet"):
         return "n%d.csv" % ev[1]
@@ -869,14 +873,15 @@ def run_event(w, ev):
     # ---- capture the state the real code is now in ------------------------------------------
     w.pf, w.rf = ObsTime.getPrintFormat(), ObsTime.getReadFormat()
     if k in ("wcsv", "wgpx", "wnet"):
-        b = _slurp(name)
-        if b is not None:
-            w.files[name] = b
-            w.meta[name] = ObsTime.getPrintFormat() if k == "wcsv" else ""
-            _DISK[name] = _sha(b)
-        else:
-            w.files.pop(name, None)
-            w.meta.pop(name, None)
+        for nm in ([name, "gd/gb.gpx"] if (k == "wgpx" and ev[1] == 1) else [name]):
+            b = _slurp(nm)
+            if b is not None:
+                w.files[nm] = b
+                w.meta[nm] = ObsTime.getPrintFormat() if k == "wcsv" else ""
+                _DISK[nm] = _sha(b)
+            else:
+                w.files.pop(nm, None)
+                w.meta.pop(nm, None)
     return res
 
 
@@ -898,7 +903,7 @@ def baseline(variant, ev, P):
         run_event(w, ev)
         out = _sha(_strip_gpx_clock(w.files.get(_fname(ev), b"")))
     else:
-        run_event(w, ("w" + k[1:], ev[1]))
+        run_event(w, ("w" + k[1:], 1 if (k == "rgpx" and ev[1] == 2) else ev[1]))
         if k == "rcsv" and ev[2] == "conv":
             w.rf = P
         if k == "rgpx":
@@ -1000,7 +1005,9 @@ def _make_judge(ctx, variant):
                 ctx.oblige("reader_changes_and_restores_read_format")
             _note_rows(ctx, rows, layout[3] >= 0)
         elif k == "rgpx":
-            rows = track_rows("GEO", variant, 5)
+            rows = track_rows("GEO", variant, 1 if ev[1] == 2 else 5)
+            if ev[1] == 2:
+                ctx.oblige("second_file_of_a_multi_file_gpx_export")
             install(after)
             if not judge_gpx_read(ctx, case, "GEO", rows, res, snap_b):
                 return False
